@@ -232,6 +232,34 @@ class SStr(ModelValue):
         raise OutsideSubset("find(%r) is not determined on %r" % (ch, self))
 
     def m_split(self, it, sep=None, maxsplit=-1):
+        if sep is None and maxsplit == -1:
+            # split on runs of whitespace: decided when no arbitrary part can hold whitespace
+            WSP = ' \t\n\r\x0b\x0c'
+            words, cur = [], []
+            for s in self.segs:
+                if isinstance(s, Lit):
+                    buf = ''
+                    for ch in s.text:
+                        if ch in WSP:
+                            if buf:
+                                cur.append(Lit(buf))
+                                buf = ''
+                            if cur:
+                                words.append(SStr(cur))
+                                cur = []
+                        else:
+                            buf += ch
+                    if buf:
+                        cur.append(Lit(buf))
+                elif isinstance(s, Num):
+                    cur.append(s)
+                else:
+                    if any(self.may_contain(ch, s) for ch in WSP):
+                        raise OutsideSubset("split(): %r may contain whitespace" % s)
+                    cur.append(s)
+            if cur:
+                words.append(SStr(cur))
+            return [simplify(w) for w in words]
         if not (isinstance(sep, str) and len(sep) == 1):
             raise OutsideSubset("split with this separator")
         parts, cur, done = [], [], 0
@@ -274,7 +302,19 @@ class SStr(ModelValue):
         return [simplify(SStr(joined))] + parts[len(parts) - maxsplit:]
 
     def m_lower(self, it):
-        raise OutsideSubset("lower() of a structured string")
+        if any(isinstance(x, Atom) for x in self.segs):
+            raise OutsideSubset("lower() of a structured string with an arbitrary part")
+        return simplify(SStr([Lit(x.text.lower()) if isinstance(x, Lit) else x for x in self.segs]))
+
+    def getitem(self, k):
+        """s[n:] when the first n characters are literal text"""
+        if isinstance(k, slice) and isinstance(k.start, int) and k.start >= 0 and k.stop is None and k.step is None:
+            segs = self.segs
+            if k.start == 0:
+                return self
+            if segs and isinstance(segs[0], Lit) and len(segs[0].text) >= k.start:
+                return simplify(SStr([Lit(segs[0].text[k.start:])] + segs[1:]))
+        raise OutsideSubset("subscript %r of a structured string" % (k,))
 
     def m___contains__(self, it, sub):
         return contains_char(self, sub)
